@@ -1,6 +1,7 @@
 import Dcg.Driver.Proto
 import Dcg.Model.Sort
 import Dcg.Model.SortPost
+import Dcg.Model.Repoint
 /-!
 Line protocol for `Model.Sort`.
   sort.data <rc> ((path (refs…) (bases…)) …)      → ok (unresolved…) (sorted…) (upd…) | err <kind>
@@ -8,6 +9,8 @@ Line protocol for `Model.Sort`.
   sort.models <fuel> (imported…) ((name (bases…)) …) → ok (names…) | none      (names as x41,42)
   sort.stack <hatch 0|1> <stack> <rc> ((path (refs…) (bases…)) …) → as sort.data | err recursionError
   sort.reuse ((path key) …) (upd…) → ok ((path reuse01 base|-) …) (upd as p or p/r …) (footer …)
+  repoint.run ((ref (users…)) …) ((user ref|-) …) (op…) (refs…) (users…) → ok ((ref (users…)) …) ((user ref|-) …) | raise
+      op = (rp dup target (users that take part…)) | (live dup target (users…)) | (set user ref|-)
 -/
 namespace Dcg.Driver.Sort
 open Dcg.Driver Dcg.Model.Sort
@@ -65,7 +68,62 @@ def rpath? : SX → Option Rendered
 def showRPath (p : RPath) : String := toString p.1 ++ (if p.2 then "r" else "")
 def showRPaths (ps : List RPath) : String := "(" ++ " ".intercalate (ps.map showRPath) ++ ")"
 
+/-! `Model.Repoint` -/
+section Repoint
+open Dcg.Model.Repoint
+
+def optNat? : SX → Option (Option Nat)
+  | .atom "-" => some none
+  | x => x.nat?.map some
+
+def kidsEntry? : SX → Option (Nat × List Nat)
+  | .list [r, us] => do pure (← r.nat?, ← nats? us)
+  | _ => none
+
+def refEntry? : SX → Option (Nat × Option Nat)
+  | .list [u, r] => do pure (← u.nat?, ← optNat? r)
+  | _ => none
+
+def runOp (s : Store) : SX → Option (Option Store)   -- outer none: bad request; inner none: raise
+  | .list [.atom "rp", d, t, m] => do
+    let m ← nats? m
+    pure (repoint (fun u => m.contains u) (← d.nat?) (← t.nat?) s)
+  | .list [.atom "live", d, t, m] => do
+    let m ← nats? m
+    let d ← d.nat?
+    pure (repointLive (fun u => m.contains u) d (← t.nat?) ((s.kids d).length + 1) 0 s)
+  | .list [.atom "set", u, r] => do pure (replaceReference s (← u.nat?) (← optNat? r))
+  | _ => none
+
+def runOps : List SX → Store → Option (Option Store)
+  | [], s => some (some s)
+  | op :: ops, s => match runOp s op with
+    | none => none
+    | some none => some none
+    | some (some s1) => runOps ops s1
+
+def showOptNat : Option Nat → String
+  | none => "-"
+  | some n => toString n
+
+def repointHandler : Handler := fun
+  | [.list ks, .list rs, .list ops, showR, showU] =>
+    match ks.mapM kidsEntry?, rs.mapM refEntry?, nats? showR, nats? showU with
+    | some ks, some rs, some showR, some showU =>
+      match runOps ops (Store.ofLists ks rs) with
+      | none => "err args"
+      | some none => "raise"
+      | some (some s) =>
+        let v := s.view showR showU
+        "ok (" ++ " ".intercalate (v.1.map (fun e => "(" ++ toString e.1 ++ " " ++ showNats e.2 ++ ")")) ++ ") (" ++
+          " ".intercalate (v.2.map (fun e => "(" ++ toString e.1 ++ " " ++ showOptNat e.2 ++ ")")) ++ ")"
+    | _, _, _, _ => "err args"
+  | _ => "err args"
+
+end Repoint
+
 def handlers : List (String × Handler) := [
+  ("repoint.run", repointHandler),
   ("sort.stack", fun
     | [h, st, rc, ms] => match h.nat?, st.nat?, rc.nat?, models? ms with
       | some h, some st, some rc, some ms => match sortDataModelsS (h != 0) st rc ms with
